@@ -88,6 +88,11 @@ def rdiv(a, b):
     return Fraction(a) / Fraction(b)
 
 
+def hashq(q):
+    """the hash of the rational number q: CPython hashes equal numbers of int / Fraction / float type equally"""
+    return hash(Fraction(q))
+
+
 GHOST = {}
 
 
